@@ -195,7 +195,7 @@ func discharge(obls []*Obligation, dir string, jobs, timeoutMs int, thorough boo
 					o.Status = "unknown"
 				}
 			}
-			if o.Status == "failed" || o.Status == "unknown" || (o.Status == "vacuous") {
+			if o.Status == "failed" || o.Status == "unknown" || (o.Status == "vacuous") || os.Getenv("GOVC_KEEPALL") != "" {
 				if keepFailed != "" {
 					os.MkdirAll(keepFailed, 0o755)
 					data, _ := os.ReadFile(f)
